@@ -654,7 +654,9 @@ var c12FieldExprs = []string{"*", "*", "*::field", "*::tag", "/v/", "/^v1/", "/.
 	"mean(/1$/)", "max(/^v1$/)", "count(/^v/)", "sum(/e$/)", "min(/^load/)", "count(/float|integer|boolean|string/)", "max(/:/)", "mean(/^\"/)", "derivative(max(/^v[12]$/))", "count(/avg$/)", "first(/ /)",
 	"/1$/", "/^load/", "/avg$/", "/ /", "/:/"}
 var c12Dims = []string{"", "", "", "host", "region", "*", "*", "/h/", "/^h/", "/./", "/nomatch/", "time(1m)", "time(1m), host", "host, time(1m)", "host, region", "time(1m), *", "region, /h/", "*, /h/", "/h/, /r/", "dc, *",
-	"v1", "nosuch", "host::tag", "\"é\"", "*::tag"}
+	"v1", "nosuch", "host::tag", "\"é\"", "*::tag",
+	// regular expressions that spell tag keys out: anchored alternations out of order, with repeats, nested groups
+	"/^(region|host)$/", "/^(host|(host))$/", "/^host$/", "/^(region|host|dc|host)$/", "/^(r|h)/", "/^(?:region|host)$/, /^dc$/", "/^(v1|region|host)$/", "/(?i)^(REGION|HOST)$/"}
 var c12Conds = []string{"", "", "", " WHERE v1 > 1", " WHERE host = 'a' AND v2 < 2", " WHERE value::float > 1 OR nosuch = 2", " WHERE f(v1) > region", " WHERE host::field = 'a' AND region::field = 'b' AND v1::field = 1"}
 
 func c12GenSelect(r *rng, depth int) string {
